@@ -480,6 +480,18 @@ func (g *genStorage) attestTraffic(w *World, rng *Rng, f, pi int, steps *[]Step,
 	base := func(kind string, a int) Op {
 		return mkOp(kind, a).withN("file", int64(f)).withN("post", int64(pi)).withN("prover", int64(prover))
 	}
+	if rng.Chance(1, 12) {
+		// one transaction: a prover (maybe new to the file) proves, requests a form, and a final
+		// message fails, so all of it is rolled back
+		kindReq := mkOp("req_attest", prover).withN("file", int64(f)).withN("post", int64(pi))
+		if report {
+			kindReq = base("req_report", prover)
+		}
+		st := txStep(mkOp("post_proof", prover).withN("file", int64(f)).withN("post", int64(pi)).withS("mode", "honest"), kindReq,
+			mkOp("bank_send", prover).withN("to", 0).withN("amt", 9_000_000_000_000_000_000))
+		st.Fault = "multi_msg"
+		*steps = append(*steps, st)
+	}
 	if !exists || rng.Chance(1, 6) {
 		if report {
 			req := g.provers[rng.Intn(len(g.provers))]
